@@ -20,6 +20,10 @@ type c17In struct {
 	Tag   string `json:"tag"`
 	Mode  string `json:"mode"` // how the two proofs are derived
 	Salt  uint64 `json:"salt"`
+	// IdSrc: constructor of the identity key(s) in the id-* modes ("" constant | decoded | aggregated | removed |
+	// zero-sk); PkRoute: constructor of the non-identity key objects ("" = PublicKey(), see c01RoutePk)
+	IdSrc   string `json:"identity_src,omitempty"`
+	PkRoute string `json:"pk_route,omitempty"`
 }
 
 func init() {
@@ -30,8 +34,8 @@ func init() {
 		PropCheck: "prop_bad_ids",
 		Gen:       c17Gen,
 		Run:       c17Run,
-		Rule:      "pairs of (key, proof): honest proofs over equal / different data, equal / distinct / negated keys, both proofs scaled by a common factor, one or both negated, identity keys, identity proofs, p+T outside G1, malformed and wrong-length proofs, proofs attributed to another key; each case also evaluated with the pairs swapped; non-BLS keys and the Prove/VerifyAgainstData wrappers are checked in the runner; distinct by the full input",
-		Shard:     2,
+		Rule:      "pairs of (key, proof): honest proofs over equal / different data, equal / distinct / negated keys, both proofs scaled by a common factor, one or both negated, identity keys, identity proofs, p+T outside G1, malformed and wrong-length proofs, proofs attributed to another key; each case also evaluated with the pairs swapped; added by the generator audit: identity keys from every constructor (decoded, aggregated, removed, PublicKey() of the zero private key) in first, second and both positions, also with the identity proof on the same / the other side and with malformed, short, nil and non-G1 proofs; non-identity key objects from every constructor; edge keys 1, 2, r-1 in every combination; nil / empty / 47 / 49 / 96-byte proofs in one and both positions, infinity with a stray byte, the 0xE0 header, sign flag on the second proof, the order-3 point (one, both, both under one key), two different defects in one call, x = p with an off-curve x, one proof under two keys, p and -p under one key, proofs under different tags, proofs scaled by r and by different factors, the honest pair after five rejected pairs on the same key objects; runner-side: not-a-BLS-key error for a foreign or nil key in EITHER position whatever the proofs (wrong length, nil, malformed) and the other key (regular, identity, foreign, nil), SPOCKProve = Sign and SPOCKVerifyAgainstData = Verify on the full product of keys (incl. identity), proofs (valid, other, malformed, non-G1, identity, short, nil, long), data (incl. nil) and hashers (nil, 127, 129 bytes, other tag), SPOCKVerify repeatable, arguments unmodified, no panic; distinct by the full input",
+		Shard:     4,
 	})
 }
 
@@ -44,6 +48,49 @@ func c17Gen(tier string, r *rand.Rand) []Case {
 	reps := 1
 	if tier == "thorough" {
 		reps = 12
+	}
+	// ---- families added by the generator audit ----
+	rk := func() *big.Int {
+		k := new(big.Int).Mod(new(big.Int).SetBytes(rbytes(r, 40)), new(big.Int).Sub(blsR, big.NewInt(1)))
+		return k.Add(k, big.NewInt(1))
+	}
+	mk := func(fam, mode string, k1, k2 *big.Int, idSrc, route string) {
+		d1 := rbytes(r, r.IntN(64))
+		d2 := append(append([]byte{}, d1...), 0x01)
+		cs = append(cs, mkcase(fam, c17In{Sk1: hx(fixed(k1, 32)), Sk2: hx(fixed(k2, 32)), Data1: hx(d1), Data2: hx(d2), Tag: fmt.Sprintf("spock-%d", r.IntN(100)),
+			Mode: mode, Salt: r.Uint64(), IdSrc: idSrc, PkRoute: route}))
+	}
+	rm1 := new(big.Int).Sub(blsR, big.NewInt(1))
+	for rep := 0; rep < reps; rep++ {
+		// identity keys from every constructor, alone, both, and together with identity / malformed / short proofs
+		// (an identity key with the identity proof on its side makes the pairing equation hold for ANY other pair)
+		for i, src := range []string{"decoded", "aggregated", "removed", "zero-sk"} {
+			mk("identity-routes", []string{"id-key1", "id-key2", "id-both", "id-both-different-data"}[i], rk(), rk(), src, "")
+			mk("identity-routes", []string{"id-key1-id-proof1", "id-key2-id-proof2", "id-key1-id-proof2", "id-both-id-proofs"}[i], rk(), rk(), src, "")
+		}
+		for _, m := range []string{"id-key1-id-proof1", "id-key2-id-proof2", "id-key1-id-proof2", "id-both-id-proofs", "id-key1-malformed2", "id-key2-short1", "id-key1-plusT1", "id-key2-nil2"} {
+			mk("identity-mixed", m, rk(), rk(), "", "")
+		}
+		// non-identity key objects from every constructor
+		for i, rt := range []string{"decoded", "decoded-compressed", "agg-single", "agg-with-identity", "agg-split", "removed", "removed-identity", "via-encoded-sk"} {
+			mk("key-routes", []string{"honest", "different-data", "same-key", "plusT2"}[i%4], rk(), rk(), "", rt)
+		}
+		// edge keys 1, 2, r-1 (pk = g2, -g2) in every combination with a random key
+		for _, pr := range [][2]*big.Int{{big.NewInt(1), rk()}, {rk(), big.NewInt(1)}, {big.NewInt(1), rm1}, {rm1, rm1}, {big.NewInt(2), big.NewInt(1)}, {big.NewInt(1), big.NewInt(1)}} {
+			mk("edge-keys", "honest", pr[0], pr[1], "", "")
+			mk("edge-keys", "different-data", pr[0], pr[1], "", "")
+		}
+		// more proof shapes and mixtures of two defects
+		for _, m := range []string{"nil1", "nil2", "nil-both", "empty-both", "short-both", "long1", "len96-2", "infstray1", "header-e0-2", "flags2", "order3-1", "order3-both",
+			"same-key-same-order3", "malformed1-plusT2", "plusT1-malformed2", "short1-plusT2", "malformed-both", "xgep1-offcurve2", "offcurve1", "same-proof-different-keys",
+			"neg-one-same-key", "different-tag", "scaled-by-zero", "scaled-differently", "honest-after-failures"} {
+			k1 := rk()
+			k2 := rk()
+			if strings.HasPrefix(m, "same-key") || m == "neg-one-same-key" {
+				k2.Set(k1)
+			}
+			mk("proof-shapes", m, k1, k2, "", "")
+		}
 	}
 	for i := 0; i < reps; i++ {
 		for _, m := range modes {
@@ -59,7 +106,7 @@ func c17Gen(tier string, r *rand.Rand) []Case {
 			}
 			d1 := rbytes(r, r.IntN(64))
 			d2 := append(append([]byte{}, d1...), 0x01)
-			cs = append(cs, mkcase(m, c17In{hx(fixed(k1, 32)), hx(fixed(k2, 32)), hx(d1), hx(d2), fmt.Sprintf("spock-%d", r.IntN(100)), m, r.Uint64()}))
+			cs = append(cs, mkcase(m, c17In{Sk1: hx(fixed(k1, 32)), Sk2: hx(fixed(k2, 32)), Data1: hx(d1), Data2: hx(d2), Tag: fmt.Sprintf("spock-%d", r.IntN(100)), Mode: m, Salt: r.Uint64()}))
 		}
 	}
 	return cs
@@ -109,7 +156,124 @@ func c17Run(c Case) (Result, error) {
 	if _, e := crypto.SPOCKVerifyAgainstData(ek.PublicKey(), p1, d1, hs); !crypto.IsNotBLSKeyError(e) {
 		return Result{}, implViolation("SPOCKVerifyAgainstData accepted a non-BLS key: %v", e)
 	}
+	// the not-a-BLS-key error for a foreign / nil key in EITHER position, whatever else is wrong with the call
+	// (wrong-length, nil, malformed proofs, identity key in the other position)
+	{
+		mal := append([]byte{}, p1...)
+		mal[0] &= 0x7F
+		others := []crypto.PublicKey{sk2.PublicKey(), crypto.IdentityBLSPublicKey(), ek.PublicKey(), nil}
+		for _, foreign := range []crypto.PublicKey{ek.PublicKey(), nil} {
+			for _, other := range others {
+				for _, pr := range [][2][]byte{{p1, p2}, {p1[:47], p2}, {nil, nil}, {mal, p2}, {p1, append(append([]byte{}, p2...), 0)}} {
+					for swap := 0; swap < 2; swap++ {
+						a, b := foreign, other
+						if swap == 1 {
+							a, b = other, foreign
+						}
+						var ok bool
+						var e error
+						if pn, m := catch(func() { ok, e = crypto.SPOCKVerify(a, pr[0], b, pr[1]) }); pn {
+							return Result{}, implViolation("SPOCKVerify panics with keys (%v, %v) and proofs of %d / %d bytes: %s", a, b, len(pr[0]), len(pr[1]), m)
+						}
+						if !crypto.IsNotBLSKeyError(e) || ok {
+							return Result{}, implViolation("SPOCKVerify with a non-BLS key (keys %v, %v; proofs of %d / %d bytes) = (%v, %v), documented: not-a-BLS-key error", a, b, len(pr[0]), len(pr[1]), ok, e)
+						}
+					}
+				}
+			}
+		}
+		for _, h := range []hash.Hasher{hs, nil, &fixedHasher{make([]byte, 64)}} {
+			if sg, e := crypto.SPOCKProve(ek, d1, h); !crypto.IsNotBLSKeyError(e) || sg != nil {
+				return Result{}, implViolation("SPOCKProve with a non-BLS key and hasher %v = (%x, %v)", h, sg, e)
+			}
+			if ok, e := crypto.SPOCKVerifyAgainstData(ek.PublicKey(), p1[:47], d1, h); !crypto.IsNotBLSKeyError(e) || ok {
+				return Result{}, implViolation("SPOCKVerifyAgainstData with a non-BLS key and hasher %v = (%v, %v)", h, ok, e)
+			}
+		}
+	}
+	// SPOCKProve = Sign and SPOCKVerifyAgainstData = Verify on EVERY kind of argument (other data, other key,
+	// identity key, malformed / non-G1 / wrong-length / nil proofs, nil and wrong-size hashers, nil data);
+	// the full product in the plain modes only (it does not depend on the mode)
+	if in.Mode == "honest" || in.Mode == "different-data" {
+		mal := append([]byte{}, p1...)
+		mal[0] &= 0x7F
+		var plusT []byte
+		if P, ok := e1DecompressSafe(p1); ok {
+			plusT = e1Compress(e1Add(P, e1Torsion(rr)))
+		}
+		idDec, _ := crypto.DecodePublicKey(crypto.BLSBLS12381, crypto.IdentityBLSPublicKey().Encode())
+		infP := append([]byte{0xC0}, make([]byte, 47)...)
+		for _, k := range []crypto.PublicKey{sk1.PublicKey(), sk2.PublicKey(), crypto.IdentityBLSPublicKey(), idDec} {
+			for _, pf := range [][]byte{p1, p2, mal, plusT, infP, p1[:47], nil, append(append([]byte{}, p1...), 0)} {
+				for _, d := range [][]byte{d1, d2, nil} {
+					for _, h := range []hash.Hasher{hs, nil, &fixedHasher{make([]byte, 127)}, &fixedHasher{make([]byte, 129)}, crypto.NewExpandMsgXOFKMAC128(in.Tag + "'")} {
+						va, ea := crypto.SPOCKVerifyAgainstData(k, pf, d, h)
+						vb, eb := k.Verify(pf, d, h)
+						if verdictClass(va, ea) != verdictClass(vb, eb) {
+							return Result{}, implViolation("SPOCKVerifyAgainstData = %s but Verify = %s (key %x, proof %x, data %x, hasher %v)", verdictClass(va, ea), verdictClass(vb, eb), k.Encode(), pf, d, h)
+						}
+					}
+				}
+			}
+		}
+		for _, k := range []crypto.PrivateKey{sk1, sk2} {
+			for _, d := range [][]byte{d1, d2, nil, make([]byte, 400)} {
+				for _, h := range []hash.Hasher{hs, nil, &fixedHasher{make([]byte, 127)}, &fixedHasher{make([]byte, 129)}, &fixedHasher{bytes.Repeat([]byte{0xff}, 128)}} {
+					sa, ea := crypto.SPOCKProve(k, d, h)
+					sb, eb := k.Sign(d, h)
+					if !bytes.Equal(sa, sb) || verdictClass(false, ea) != verdictClass(false, eb) || (sa == nil) != (sb == nil) {
+						return Result{}, implViolation("SPOCKProve = (%x, %v) but Sign = (%x, %v) (key %x, data %x, hasher %v)", sa, ea, sb, eb, k.Encode(), d, h)
+					}
+				}
+			}
+		}
+	}
 	pk1, pk2 := sk1.PublicKey(), sk2.PublicKey()
+	if in.PkRoute != "" {
+		routes := []string{"decoded", "decoded-compressed", "agg-single", "agg-with-identity", "agg-split", "removed", "removed-identity", "via-encoded-sk"}
+		next := in.PkRoute
+		for i, rt := range routes {
+			if rt == in.PkRoute {
+				next = routes[(i+3)%len(routes)]
+			}
+		}
+		var e1, e2 error
+		pk1, e1 = c01RoutePk(in.PkRoute, sk1, new(big.Int).SetBytes(unhx(in.Sk1)), rr)
+		pk2, e2 = c01RoutePk(next, sk2, new(big.Int).SetBytes(unhx(in.Sk2)), rr)
+		if e1 != nil || e2 != nil {
+			return Result{}, implViolation("public keys through routes %s / %s: %v %v", in.PkRoute, next, e1, e2)
+		}
+	}
+	idKey := func() crypto.PublicKey {
+		if in.IdSrc == "zero-sk" {
+			z, e := c04ZeroKey(rr)
+			if e != nil {
+				panic(e)
+			}
+			return z.PublicKey()
+		}
+		k, e := c02IdentityKey(in.IdSrc, rr)
+		if e != nil {
+			panic(e)
+		}
+		return k
+	}
+	header := func(b []byte) []byte {
+		c := append([]byte{}, b...)
+		c[0] &= 0x7F
+		return c
+	}
+	offcurve := func() []byte {
+		for {
+			xx := new(big.Int).Mod(new(big.Int).SetBytes(rbytes(rr, 48)), blsP)
+			if fpSqrt(fpAdd(fpMul(fpMul(xx, xx), xx), e1B)) == nil {
+				b := fixed(xx, 48)
+				b[0] |= 0x80
+				return b
+			}
+		}
+	}
+	order3 := func() []byte { return append([]byte{0x80}, make([]byte, 47)...) }
 	id1, id2 := false, false
 	P1, P2 := e1Decompress(p1), e1Decompress(p2)
 	inf := make([]byte, 48)
@@ -146,18 +310,38 @@ func c17Run(c Case) (Result, error) {
 		p1, p2 = e1Compress(e1Neg(P1)), e1Compress(e1Neg(P2))
 	case "neg-one":
 		p1 = e1Compress(e1Neg(P1))
-	case "id-key1":
-		pk1, id1 = crypto.IdentityBLSPublicKey(), true
-	case "id-key2":
-		pk2, id2 = crypto.IdentityBLSPublicKey(), true
-	case "id-both", "id-both-different-data", "id-both-one-id-proof", "id-both-decoded":
+	case "id-key1", "id-key1-id-proof1", "id-key1-id-proof2", "id-key1-malformed2", "id-key1-plusT1":
+		pk1, id1 = idKey(), true
+		switch in.Mode {
+		case "id-key1-id-proof1":
+			p1 = inf
+		case "id-key1-id-proof2":
+			p2 = inf
+		case "id-key1-malformed2":
+			p2 = header(p2)
+		case "id-key1-plusT1":
+			p1 = e1Compress(e1Add(P1, e1Torsion(rr)))
+		}
+	case "id-key2", "id-key2-id-proof2", "id-key2-short1", "id-key2-nil2":
+		pk2, id2 = idKey(), true
+		switch in.Mode {
+		case "id-key2-id-proof2":
+			p2 = inf
+		case "id-key2-short1":
+			p1 = p1[:47]
+		case "id-key2-nil2":
+			p2 = nil
+		}
+	case "id-both", "id-both-different-data", "id-both-one-id-proof", "id-both-decoded", "id-both-id-proofs":
 		// BOTH keys are the identity: e(p, O) = 1 for every p, so only the explicit refusal of identity
 		// keys stands between arbitrary proofs and acceptance
-		pk1, id1 = crypto.IdentityBLSPublicKey(), true
-		pk2, id2 = crypto.IdentityBLSPublicKey(), true
+		pk1, id1 = idKey(), true
+		pk2, id2 = idKey(), true
 		switch in.Mode {
 		case "id-both-different-data":
 			p2, _ = crypto.SPOCKProve(sk2, d2, hs)
+		case "id-both-id-proofs":
+			p1, p2 = inf, append([]byte{}, inf...)
 		case "id-both-one-id-proof":
 			p1 = inf
 		case "id-both-decoded":
@@ -198,6 +382,67 @@ func c17Run(c Case) (Result, error) {
 	case "flags1":
 		p1 = append([]byte{}, p1...)
 		p1[0] ^= 0x20
+	case "nil1":
+		p1 = nil
+	case "nil2":
+		p2 = nil
+	case "nil-both":
+		p1, p2 = nil, nil
+	case "empty-both":
+		p1, p2 = []byte{}, []byte{}
+	case "short-both":
+		p1, p2 = p1[:47], p2[:47]
+	case "long1":
+		p1 = append(append([]byte{}, p1...), 0)
+	case "len96-2":
+		p2 = append(append([]byte{}, p2...), p2...)
+	case "infstray1":
+		p1 = append([]byte{}, inf...)
+		p1[1+rr.IntN(47)] = byte(1 + rr.IntN(255))
+	case "header-e0-2":
+		p2 = crypto.BLSInvalidSignature()
+	case "flags2":
+		p2 = append([]byte{}, p2...)
+		p2[0] ^= 0x20
+	case "order3-1":
+		p1 = order3()
+	case "order3-both":
+		p1, p2 = order3(), order3()
+	case "same-key-same-order3":
+		p1, p2 = order3(), order3()
+		pk2 = pk1
+	case "malformed1-plusT2":
+		p1, p2 = header(p1), e1Compress(e1Add(P2, e1Torsion(rr)))
+	case "plusT1-malformed2":
+		p1, p2 = e1Compress(e1Add(P1, e1SmallOrder(rr, 3))), header(p2)
+	case "short1-plusT2":
+		p1, p2 = p1[:47], e1Compress(e1Add(P2, e1Torsion(rr)))
+	case "malformed-both":
+		p1, p2 = header(p1), header(p2)
+	case "xgep1-offcurve2":
+		p1 = fixed(blsP, 48)
+		p1[0] |= 0x80
+		p2 = offcurve()
+	case "offcurve1":
+		p1 = offcurve()
+	case "same-proof-different-keys":
+		p2 = append([]byte{}, p1...)
+	case "neg-one-same-key":
+		p2 = e1Compress(e1Neg(P1))
+		pk2 = pk1
+	case "different-tag":
+		p2, _ = crypto.SPOCKProve(sk2, d1, crypto.NewExpandMsgXOFKMAC128(in.Tag+"'"))
+	case "scaled-by-zero":
+		p1, p2 = e1Compress(e1Mul(blsR, P1)), e1Compress(e1Mul(blsR, P2))
+	case "scaled-differently":
+		p1, p2 = e1Compress(e1Mul(big.NewInt(int64(2+rr.IntN(1000))), P1)), e1Compress(e1Mul(big.NewInt(int64(1003+rr.IntN(1000))), P2))
+	case "honest-after-failures":
+		// rejected pairs on the same key objects first: verification keeps no memory of them
+		for _, pr := range [][2][]byte{{header(p1), p2}, {p1, e1Compress(e1Neg(P2))}, {p2, p1}, {p1[:47], p2}, {inf, p2}} {
+			if ok, e := crypto.SPOCKVerify(pk1, pr[0], pk2, pr[1]); ok || e != nil {
+				return Result{}, implViolation("SPOCKVerify accepts / fails on a wrong pair of proofs %x, %x: (%v, %v)", pr[0], pr[1], ok, e)
+			}
+		}
 	case "xgep2":
 		x2 := new(big.Int).Add(P2.x, blsP)
 		if x2.BitLen() <= 381 {
@@ -209,9 +454,24 @@ func c17Run(c Case) (Result, error) {
 			p2[0] |= 0x80
 		}
 	}
-	ok, e := crypto.SPOCKVerify(pk1, p1, pk2, p2)
-	ok2, e2s := crypto.SPOCKVerify(pk2, p2, pk1, p1)
+	p1c, p2c := append([]byte{}, p1...), append([]byte{}, p2...)
+	pk1Enc, pk2Enc := pk1.Encode(), pk2.Encode()
+	var ok, ok2 bool
+	var e, e2s error
+	if pn, m := catch(func() {
+		ok, e = crypto.SPOCKVerify(pk1, p1, pk2, p2)
+		ok2, e2s = crypto.SPOCKVerify(pk2, p2, pk1, p1)
+	}); pn {
+		return Result{}, implViolation("SPOCKVerify panics (mode %s, proofs %x / %x): %s", in.Mode, p1, p2, m)
+	}
 	v, vs := verdictClass(ok, e), verdictClass(ok2, e2s)
+	// repeatable, arguments read only
+	if ok3, e3 := crypto.SPOCKVerify(pk1, p1, pk2, p2); verdictClass(ok3, e3) != v {
+		return Result{}, implViolation("SPOCKVerify is not repeatable (mode %s): %s then %s", in.Mode, v, verdictClass(ok3, e3))
+	}
+	if !bytes.Equal(p1, p1c) || !bytes.Equal(p2, p2c) || !bytes.Equal(pk1.Encode(), pk1Enc) || !bytes.Equal(pk2.Encode(), pk2Enc) {
+		return Result{}, implViolation("SPOCKVerify modified its arguments (mode %s)", in.Mode)
+	}
 	term := fmt.Sprintf("mkCase %s %s %s %s %s %s %s %s", cqs(in.Sk1), cqs(in.Sk2), cqbool(id1), cqbool(id2), cqs(hx(p1)), cqs(hx(p2)), cqs(v), cqs(vs))
 	return Result{Coq: term, Key: string(c.Input), Nontrivial: len(p1) == 48 && len(p2) == 48,
 		Obs: map[string]any{"p1": hx(p1), "p2": hx(p2), "verdict": v, "swapped": vs}}, nil
